@@ -1,7 +1,7 @@
 (* Pinned statements of the C03 theorems (generated once by bin/genpins, then committed):
    fails to compile if Props/C03.v is weakened, renamed or given other hypotheses. *)
 From Coq Require Import SpecFloat.
-Require Import Base Value Float PrintOptions ParseOptions Reader Scan Num Parser DepthProofs DepthBoundProofs.
+Require Import Base Value Float PrintOptions ParseOptions Reader Scan Num Parser DepthProofs DepthBoundProofs FuelProofs FloatFuel.
 Require Import Lexpr.Props.C03.
 
 Check (C03_budget_restored :
@@ -22,6 +22,18 @@ Check (C03_from_trait_no_panic :
   forall ro alpha fast std_parse k inp,
   no_panic (from_trait ro alpha fast std_parse k inp) /\
   no_panic (datum_from_trait ro alpha fast std_parse k inp)).
+
+Check (C03_total :
+  forall ro alpha fast std_parse k inp,
+  (from_trait ro alpha fast std_parse k inp <> PErr (XErr EFuel) /\
+   no_panic (from_trait ro alpha fast std_parse k inp)) /\
+  (datum_from_trait ro alpha fast std_parse k inp <> PErr (XErr EFuel) /\
+   no_panic (datum_from_trait ro alpha fast std_parse k inp))).
+
+Check (C03_history_total :
+  forall ro alpha fast std_parse k inp cs,
+  Forall (fun r => ~ call_fuel r) (run_history ro alpha fast std_parse (fuel_for inp) cs (init_state k inp)) /\
+  Forall call_ok (run_history ro alpha fast std_parse (fuel_for inp) cs (init_state k inp))).
 
 Check (C03_depth_every_call :
   forall ro alpha fast std_parse fuel D s, depth s = D -> 1 <= D <= 128 ->
